@@ -184,7 +184,7 @@ def gen_rtr_case(rng, conforming=True):
         c = caches[rng.choice(sorted(caches))]
         if c.state == "deleted":
             continue
-        op = rng.choice(["sync", "incr", "incr", "flap", "flap2", "restart", "creset", "expire", "delsrv", "disable", "notify-old", "err", "malformed"])
+        op = rng.choice(["sync", "incr", "incr", "flap", "flap2", "restart", "restart-connected", "creset", "expire", "delsrv", "disable", "notify-old", "err", "malformed"])
         if c.state in ("none",) and op in ("incr", "creset", "notify-old"):
             op = "sync"
         if op == "sync":
@@ -226,6 +226,19 @@ def gen_rtr_case(rng, conforming=True):
             c.serial = rng.choice([1, 100])
             c.truth = {gen_rec(rng) for _ in range(rng.choice([0, 1, 3]))}
             full_sync(rng, c, evs)
+        elif op == "restart-connected":
+            # the cache starts a new session (new session id, unrelated content) while the connection stays up and no Reset
+            # Query is outstanding: the answer to an incremental exchange carries the new id, and at End of Data the records
+            # of the previous session must be gone
+            if c.state != "synced" or not c.connected:
+                full_sync(rng, c, evs)
+            c.sess += 1
+            c.serial = rng.choice([1, 100])
+            c.truth = {gen_rec(rng) for _ in range(rng.choice([0, 1, 3]))}
+            evs.append("(resp %d %d)" % (c.src, c.sess))
+            for r in sorted(c.truth):
+                evs.append("(pfx %d 1 %s)" % (c.src, rec_sx(r)))
+            evs.append("(eod %d %d %d)" % (c.src, c.sess, c.serial))
         elif op == "creset":
             if c.connected:
                 mutate(rng, c)
